@@ -12,7 +12,8 @@ EXPLANATION = ("Leaving a cancel scope: __exit__ applies the inverse of every tr
                "child link, task scope pointer, active flag, host task), restarts delivery in the parent, drains the uncancel counter one "
                "uncancel() per delivered cancel() under the absorb condition or transfers it to the parent, cancels its timer; the delivery "
                "callback skips finished tasks before scheduling a retry and clears its handle when nothing is left."
-               " In TaskGroup.__aexit__ a cancellation caught during the join replaces the carried exception only if there is none, or it is a cancellation and the *caught* one is native.")
+               " In TaskGroup.__aexit__ a cancellation caught during the join replaces the carried exception only if there is none, or it is a cancellation and the *caught* one is native."
+               " The replacement rule in TaskGroup.__aexit__ holds in both directions (truth table over its four atoms).")
 NOT_DECIDED = "Task.cancelling() values at run time, loop idleness, interaction with native asyncio constructs (needs execution)."
 
 
